@@ -103,6 +103,9 @@ class KeyHandler(HTMLHandlerBase):
         except (ValueError) as err:
             flask.flash(f'Invalid values: {err}', 'error')
             return self.get(kpk)
+        if new_key and models.Key.get(hkid=model.hkid) is not None:
+            flask.flash(f'Duplicate KID {model.hkid}', 'error')
+            return self.get(kpk)
         model.computed = flask.request.form.get('computed', 'off') == 'on'
         if new_key:
             model.add()
